@@ -156,7 +156,7 @@ func checkCLI(cfg *propCfg, tier string, seed uint64, scratch string, start time
 	return aggregate(cfg, tier, seed, &build{scratch: scratch, bin: bin}, []shardOut{so}, start, buildS)
 }
 
-func replayCLI(cfg *propCfg, rf *replayFile, scratch string) int {
+func replayCLI(cfg *propCfg, rf *replayFile, scratch, path string) int {
 	bin := buildCLI(scratch)
 	base := clisim.ScratchBase()
 	defer os.RemoveAll(base)
@@ -171,6 +171,6 @@ func replayCLI(cfg *propCfg, rf *replayFile, scratch string) int {
 		return 0
 	}
 	fmt.Printf("replay: reproduced %s@%s\n", out.V.Kind, out.V.Site)
-	fmt.Printf("VIOLATION property=%s replay=%s\n", rf.Property, "(given file)")
+	fmt.Printf("VIOLATION property=%s replay=%s\n", rf.Property, path)
 	return 1
 }
